@@ -255,7 +255,7 @@ fn mk_hbox(n: &N) -> ds::HBox {
         glue_order: order(*o),
     }
 }
-fn mk_vbox(n: &N) -> ds::VBox {
+pub fn mk_vbox(n: &N) -> ds::VBox {
     let N::VBox { h, w, d, s, num, den, order: o, list } = n else { unreachable!() };
     ds::VBox {
         height: Scaled(*h),
